@@ -143,3 +143,24 @@ def text_matches(replies, text):
         if r.startswith("OK ") and unhx(r.split(" ")[1]) == text:
             return True
     return False
+
+
+def really_differs(job_a, job_b, env_a=None, env_b=None, cwd_a="/tmp", cwd_b="/tmp", now=None, tries=3):
+    """Two runs printed different text.  Is that a property of the runs, or the wall clock ticking between them (dirty states carry
+    the clock, possibly formatted into calendar fields)?  Run A, B, A again back to back: only a difference that survives while A
+    agrees with itself counts.  Returns (differs, last outputs)."""
+    last = None
+    for _ in range(tries):
+        ra = run_procs([job_a], env=env_a, cwd=cwd_a)[0]
+        rb = run_procs([job_b], env=env_b, cwd=cwd_b)[0]
+        ra2 = run_procs([job_a], env=env_a, cwd=cwd_a)[0]
+        last = (ra, rb)
+        n = now if now is not None else int(time.time())
+        ta, tb, ta2 = (mask_now(x[1].decode("utf-8", "replace"), n) for x in (ra, rb, ra2))
+        if (ra[0] == 0) != (rb[0] == 0):
+            return True, last
+        if ta == tb:
+            return False, last
+        if ta == ta2:
+            return True, last
+    return False, last          # A never agreed with itself: the text depends on the clock, not on what is being compared
